@@ -107,6 +107,17 @@ def build_world(desc, reset=True):
                                  molar_mass=desc["material"]["molar_mass"]),
         adsorbate="verif-user-gas", temperature=77.355, pressure_mode="relative", pressure_unit=None, loading_basis="molar",
         loading_unit="mmol", material_basis="mass", material_unit="g", temperature_unit="K", user="verif")
+    # ... and on a user's PRIVATE description of a gas of the same name (not registered; other vapour pressure and
+    # densities), attached through the adsorbate setter: two adsorbate objects with one name live in the process
+    uf2 = ru.UserFluid(64000.0, 30.07, 0.021, 4.1e-5)
+    iso_u2 = pygaps.PointIsotherm(
+        isotherm_data=df_u.copy(), pressure_key="pressure", loading_key="loading",
+        material=pygaps.Material(desc["material"]["name"], density=desc["material"]["density"],
+                                 molar_mass=desc["material"]["molar_mass"]),
+        adsorbate="verif-user-gas", temperature=77.355, pressure_mode="relative", pressure_unit=None, loading_basis="molar",
+        loading_unit="mmol", material_basis="mass", material_unit="g", temperature_unit="K", user="verif-2")
+    iso_u2.adsorbate = pygaps.Adsorbate("verif-user-gas", store=False, **ru.user_fluid_properties(uf2))
+    world["U2"] = iso_u2
     for key, gas, kk in (("M1", "methane", 1.3), ("M2", "ethane", 4.0), ("M3", "methane", 2.0)):
         m = pgm.get_isotherm_model("Langmuir" if key != "M3" else "Toth")
         m.params = {"K": kk * desc["shape"]["C"] / 50.0, "n_m": desc["shape"]["nm"]}
@@ -410,7 +421,7 @@ _KW = {  # documented keyword arguments that callers usually leave at their defa
 
 
 def _op(focus=None):
-    iso = st.sampled_from(["A", "A", "B", "U"])
+    iso = st.sampled_from(["A", "A", "B", "U", "U2"])
     br = st.sampled_from(_BR)
     q = st.floats(0, 1)
     req = st.builds(lambda p, l, m: {"prep": p, "lrep": l, "mrep": m}, st.one_of(st.none(), S.p_rep()),
